@@ -128,7 +128,23 @@ pub fn gen_c13(rng: &mut Rng, i: u64, tier: Tier) -> Script {
     });
     if rng.chance(1, 10) {
         let tp = rng.range(50, 3000);
-        let pv = valid_stream(rng, zlib, tp, 32768, None);
+        let mut pv = valid_stream(rng, zlib, tp, 32768, None);
+        match rng.below(6) {
+            0 => {
+                // the earlier stream was corrupt (targeted RFC violation, e.g. table sizes beyond the alphabet)
+                let spec = crate::foreign::ALL_SPECS[rng.usize_below(crate::foreign::ALL_SPECS.len())];
+                if !spec.is_zlib() || zlib {
+                    let cfg = crate::foreign::GenCfg { zlib, target: rng.range(0, 400), spec, max_dist: 32768, edge: 0 };
+                    pv.bytes = crate::foreign::generate(rng, &cfg).bytes;
+                }
+            }
+            1 => {
+                let f = random_fault(rng, pv.bytes.len());
+                let mut tmp = crate::script::Stats::default();
+                pv.bytes = crate::dec::apply_faults(&pv.bytes, &[f], &mut tmp);
+            }
+            _ => {}
+        }
         s.set("prelude", rng.range(1, 8) as i64);
         let only_cut_or_tail = s.faults.iter().all(|f| f[0] == F_TRUNC || f[0] == F_TAIL);
         s.set("prelude_policy", if only_cut_or_tail { rng.pick(&[0i64, 1, 2, 2, 3]) } else { rng.pick(&[0i64, 1, 3]) });
@@ -161,6 +177,18 @@ pub fn gen_c14(rng: &mut Rng, i: u64, tier: Tier) -> Script {
         s.set("tail_grant", [4096i64, 1, 5][(i % 3) as usize]);
         s.set_blob("plain", plain);
         return s;
+    }
+    let j = i - per * nstreams;
+    if j < 16 {
+        // the compressor's self-initiated block flush in every phase (see props_pipe::phase_sweep_script), driven
+        // through deflate(): every other one of the 32 phase scripts
+        let mut ps = crate::props_pipe::phase_sweep_script(rng, 2 * j + 1, "C14");
+        ps.set("driver", 2);
+        ps.set("clauses", crate::pipe::PC_C02);
+        if ps.ops[0][1] < 1 {
+            ps.ops[0][1] = 1;
+        }
+        return ps;
     }
     base_cfg(rng, &mut s, true);
     if s.c("setter") != 0 && s.c("pre_reset") != 0 {
@@ -214,6 +242,13 @@ pub fn gen_c14(rng: &mut Rng, i: u64, tier: Tier) -> Script {
     s
 }
 
+fn exec_c14(s: &Script, st: &mut crate::script::Stats) -> Result<crate::runner::RunInfo, crate::script::Violation> {
+    match s.scen.as_str() {
+        "pipe" => crate::pipe::exec(s, st),
+        _ => crate::proto::exec_deflate_proto(s, st),
+    }
+}
+
 const ASSUME: &[&str] = &[
     "reference inflater (harness; cross-checked against system zlib in ./check selftest)",
     "protocol invariants are those spelled out in the property statement; exact per-call statuses of the normal path are not modelled",
@@ -242,7 +277,7 @@ pub fn defs() -> Vec<CheckDef> {
             runs_thorough: 30_000_000,
             block: 2048,
             gen: gen_c14,
-            exec: crate::proto::exec_deflate_proto,
+            exec: exec_c14,
             rule: "runs 0..E-1 enumerate EVERY call history of depth <= 3 over (chunk 0/1/5/rest) x (output 0/1/5/large) x (flush None/Sync/Full/Finish) on fixed inputs of 0/7/90/300 bytes; the remaining runs are seeded random histories (any MZFlush on any call, output buffers down to 1 byte, i.e. smaller than one flush marker) on inputs up to 200 KiB over all configurations; each history is followed by a Finish loop with 1 / 5 / random / 4096-byte grants; scripts with empty-output calls are executed a second time without them to show the absence of side effects; non-trivial = more than one call; distinct = shape fingerprint",
             shrink_cfg: &["tail_grant"],
             shrink_blobs: true,
